@@ -779,7 +779,10 @@ def _vlookup(ev, a, sh, at):
     col = _int_arg(ev, a[2], sh, at)
     approx = True
     if len(a) == 4:
-        approx = truth(ev.arg_scalar(a[3], sh, at))
+        flag = ev.arg_scalar(a[3], sh, at)
+        if isinstance(flag, float):
+            raise NoOpinion('range_lookup given as a float')
+        approx = truth(flag)
     pos = match_pos(value, [row[0] for row in table.rows], 1 if approx else 0, ev=ev)
     if col < 1 or col > table.w:
         raise XlError(None)
